@@ -28,9 +28,11 @@ def run(rep):
         "belongs to a model (Reaction._set_id_with_model, Metabolite._set_id_with_model): an id already in the list raises ValueError "
         "and changes nothing; otherwise exactly this object's id becomes the new id, the model's DictList is well formed again with "
         "the same members at the same positions, lookup by the new id finds the object, the old id is gone, every other key is found "
-        "as before, and the solver objects are renamed in step (C01) - preconditions: the object is listed in its model's well-formed "
-        "DictList, solver in step at entry, optlang accepts the new names (it rejects white space: for a Reaction only AFTER id and "
-        "index were changed - a partial update that the contract excludes by precondition and does not excuse). The wrappers "
+        "as before, and the solver objects are renamed in step (C01); for a reaction whose new id or reverse id optlang refuses as a "
+        "variable name (white space) ValueError is raised and nothing has changed - id, list, index, both variable names (the "
+        "original body left id and index changed: defect found with this contract, repaired in /repo acce6db). Preconditions: the "
+        "object is listed in its model's well-formed DictList, solver in step at entry; for a metabolite also that optlang accepts "
+        "the new name (its constraint is renamed first, so a refused name raises before anything changed). The wrappers "
         "Reaction.remove_from_model / delete and Metabolite.remove_from_model make exactly one call Model.remove_reactions([self], "
         "remove_orphans=<as given>) resp. Model.remove_metabolites(self, <destructive as given>) on the object's own model (precondition: it belongs to one). "
         "Model.add_boundary follows the decision table of its docstring for every shape of its optional arguments (exchange / demand "
